@@ -9,7 +9,7 @@ KS = [["int", "2", "1"], ["int", "-3", "1"], ["float", "1", "2"], ["float", "5",
 
 def mul(a, b):
     f = frac(a) * frac(b)
-    kind = "int" if a[0] == "int" and b[0] == "int" else "float"
+    kind = "dec" if "dec" in (a[0], b[0]) else ("int" if a[0] == "int" and b[0] == "int" else "float")
     return [kind, str(f.numerator), str(f.denominator)]
 
 def bundle(a, b, cc, m, k):
@@ -115,9 +115,17 @@ def main():
     for _ in range(ninst):
         a, b = sp.pair(rng)
         cc = sp.alt(rng, a)
-        m = convgen.rand_mag(rng, ("int", "float"))
+        m = convgen.rand_mag(rng, ("int", "float", "dec"))
         if frac(m) == 0: m = ["int", "7", "1"]
         inst = (a, b, cc, m, rng.choice(KS)); insts.append(inst); ops += bundle(*inst)
+    # Decimal magnitudes across very small and very large ratios (a Decimal times a float ratio of 1e-19 must not lose its value)
+    U_ = lambda n, e=1, p=None: [[p, n, e]]
+    for a, b, cc in ((U_("electron-volt"), U_("joule"), U_("joule", 1, "milli")), (U_("dalton"), U_("gram", 1, "kilo"), U_("gram")), (U_("barn"), U_("meter", 2), U_("meter", 2, "milli")),
+                     (U_("Ångström"), U_("mile"), U_("meter")), (U_("meter", 1, "atto"), U_("meter", 1, "kilo"), U_("foot")), (U_("inch"), U_("astronomical unit"), U_("meter")),
+                     (U_("second", 1, "zepto"), U_("hour"), U_("minute")), (U_("gram", 1, "yotta"), U_("dalton"), U_("gram"))):
+        if all(n in sp.units for spec in (a, b, cc) for _, n, _ in spec):
+            for m in (["dec", "7", "4"], ["dec", "-3", "1"], ["dec", "12345", "1000"]):
+                inst = (a, b, cc, m, ["dec", "4", "1"]); insts.append(inst); ops += bundle(*inst)
     r = impl("convsys_worker.py", {"systems": True, "cases": ops})
     cs, rs, where = flatten(ops, r["results"])
     info = run_block(c, "ship", r["export"], cs, rs, Fraction(1, 10**11))
